@@ -773,7 +773,7 @@ def atom_subst(a, mapping):
 
 
 # --------------------------------------------------------------------------- smart constructors
-REAL_FNS = {"arcsin", "log10", "log", "angle", "unwrap", "unwrap1", "unwrap1d", "cos", "sin", "nearest", "trunc", "floor", "ceil",
+REAL_FNS = {"arcsin", "tan", "arctan", "tanh", "sinh", "cosh", "log10", "log", "angle", "unwrap", "unwrap1", "unwrap1d", "cos", "sin", "nearest", "trunc", "floor", "ceil",
             "abs", "min", "max", "mod", "sign"}
 
 
@@ -1000,6 +1000,11 @@ def _evalatom(a, env):
         if nm == "cos": return cmath.cos(av[0])
         if nm == "sin": return cmath.sin(av[0])
         if nm == "arcsin": return cmath.asin(av[0])
+        if nm == "tan": return cmath.tan(av[0])
+        if nm == "arctan": return cmath.atan(av[0])
+        if nm == "tanh": return cmath.tanh(av[0])
+        if nm == "sinh": return cmath.sinh(av[0])
+        if nm == "cosh": return cmath.cosh(av[0])
         if nm == "log10": return cmath.log10(av[0])
         if nm == "log": return cmath.log(av[0])
         if nm == "exp": return cmath.exp(av[0])
